@@ -176,10 +176,12 @@ def runActs : List Act → Inp → PState → List Seq → Next → PState × Li
       if usesRune a then (s, out ++ [.panic], .stop)
       else let (s', o) := applyAct a 0 s; runActs rest i s' (out ++ o) n
 
-/-- Call one state function. -/
+/-- Call one state function.  The deferred `p.ignoreST = false` runs when the function returns,
+    provided the `defer` statement was reached (it is part of the row: not when an `if … return`
+    above it fired). -/
 def runFn (f : StateFn) (i : Inp) (s : PState) : PState × List Seq × Next :=
   let (s', out, n) := runActs (f.row i).1 i s [] (f.row i).2
-  (if f.pre.contains .deferClearIgnoreST then { s' with ignoreST := false } else s', out, n)
+  (if (f.row i).1.contains .deferClearIgnoreST then { s' with ignoreST := false } else s', out, n)
 
 structure Table where
   anywhere : StateFn
@@ -226,9 +228,9 @@ def handFn : StateId → StateFn
     { pre := [], arms := [{ guards := c0, acts := [.execute], next := .st .ground }],
       dflt := { guards := [], acts := [.print], next := .st .ground } }
   | .escape =>
-    { pre := [.deferClearIgnoreST],
+    { early := [{ guards := c0, acts := [.execute], next := .st .escape }],
+      pre := [.deferClearIgnoreST],
       arms := [
-        { guards := c0, acts := [.execute], next := .st .escape },
         { guards := [.range 0x20 0x2F], acts := [.collect], next := .st .escapeIntermediate },
         { guards := [.range 0x30 0x4E, .range 0x51 0x57, .eq 0x59, .eq 0x5A, .range 0x60 0x7F],
           acts := [.escapeDispatch], next := .st .ground },
